@@ -1,9 +1,11 @@
 import Driver.Sexp
 import Pcore.Model.ImmutMutable
+import Pcore.Generated.SliceIdioms
 /-!
 Driver op `C08 mut <step>*` (syntax: harness/c08/mutable.go): a MutableHashValue as one object, with the Hash methods it
 inherits; printed: what every pool entry holds after the whole history (`M<id>` a builder, `@<id>` a `*Hash` that is
-builder `<id>` itself).  The code as it is answers aliases (`frozen := false`).
+builder `<id>` itself — only on a tree without the repair 1d333d3).  Whether the four `return hv` answers are copies is read
+off the regenerated idiom table (`mutFrozen`).
 -/
 namespace C08Mut
 open Sx Pcore.Heap Pcore.Mut
@@ -50,7 +52,7 @@ def showEntry (objs : List (List Val)) : MEntry → String
 def exec (steps : List Sexp) : String :=
   match steps.mapM opOf with
   | some ops =>
-    let st := mrun false ops
+    let st := mrun (mutFrozen Pcore.Generated.sliceIdioms) ops
     " ".intercalate (st.pool.map (showEntry st.objs))
   | none => "bad-op"
 
